@@ -111,6 +111,8 @@ pub struct Case {
     drops: Vec<i64>,
     threads: usize,
     yield_seed: u64,
+    /// force two writers of the shared spill pool to hold distinct files at the same time (hook rendezvous at sp_w_p3)
+    force_two_files: bool,
     origin: String,
 }
 
@@ -130,7 +132,7 @@ fn case_json(c: &Case) -> Value {
         .collect();
     json!({"scheme": c.scheme, "nout": c.nout, "keys": c.keys, "splits": c.splits, "desc": c.desc, "nulls_first": c.nulls_first,
            "preserve_order": c.preserve_order, "unbounded": c.unbounded, "inputs": inputs, "batch_size": c.batch_size, "mem": c.mem,
-           "max_spill_file": c.max_spill_file, "drops": c.drops, "threads": c.threads, "yield_seed": c.yield_seed, "origin": c.origin})
+           "max_spill_file": c.max_spill_file, "drops": c.drops, "threads": c.threads, "yield_seed": c.yield_seed, "force_two_files": c.force_two_files, "origin": c.origin})
 }
 
 fn case_parse(v: &Value) -> Case {
@@ -157,6 +159,7 @@ fn case_parse(v: &Value) -> Case {
         drops: v["drops"].as_array().unwrap().iter().map(|x| x.as_i64().unwrap()).collect(),
         threads: v["threads"].as_u64().unwrap_or(2) as usize,
         yield_seed: v["yield_seed"].as_u64().unwrap_or(0),
+        force_two_files: v["force_two_files"].as_bool().unwrap_or(false),
         origin: v["origin"].as_str().unwrap_or("").to_string(),
     }
 }
@@ -246,6 +249,7 @@ struct ScriptExec {
     parts: Vec<Vec<Item>>,
     props: Arc<PlanProperties>,
     yield_seed: u64,
+    sleeps: bool,
     log: Arc<parking_lot::Mutex<Vec<Value>>>,
     progress: Arc<AtomicU64>,
 }
@@ -260,7 +264,7 @@ impl ScriptExec {
         };
         let bounded = if c.unbounded { Boundedness::Unbounded { requires_infinite_memory: false } } else { Boundedness::Bounded };
         let props = PlanProperties::new(eq, Partitioning::UnknownPartitioning(c.inputs.len()), EmissionType::Incremental, bounded);
-        ScriptExec { parts: c.inputs.clone(), props: Arc::new(props), yield_seed: c.yield_seed, log, progress }
+        ScriptExec { parts: c.inputs.clone(), props: Arc::new(props), yield_seed: c.yield_seed, sleeps: c.threads > 1, log, progress }
     }
 }
 
@@ -297,6 +301,7 @@ impl ExecutionPlan for ScriptExec {
             pos: 0,
             rng: self.yield_seed.wrapping_mul(0x9E3779B97F4A7C15) ^ (partition as u64 + 1),
             fuzz: self.yield_seed != 0,
+            sleeps: self.sleeps,
             log: Arc::clone(&self.log),
             progress: Arc::clone(&self.progress),
         }))
@@ -309,6 +314,7 @@ struct ScriptStream {
     pos: usize,
     rng: u64,
     fuzz: bool,
+    sleeps: bool,
     log: Arc<parking_lot::Mutex<Vec<Value>>>,
     progress: Arc<AtomicU64>,
 }
@@ -331,7 +337,7 @@ impl Stream for ScriptStream {
                     return Poll::Pending;
                 }
                 2 => std::thread::yield_now(),
-                3 => std::thread::sleep(std::time::Duration::from_micros(r % 300)),
+                3 if self.sleeps => std::thread::sleep(std::time::Duration::from_micros(r % 300)),
                 _ => {}
             }
         }
@@ -364,6 +370,32 @@ impl RecordBatchStream for ScriptStream {
     }
 }
 
+
+// ------------------------------------------------------------------------------------------ schedule forcing (hook rendezvous)
+
+static FORCE: parking_lot::Mutex<(bool, usize)> = parking_lot::Mutex::new((false, 0));
+static FORCE_CV: parking_lot::Condvar = parking_lot::Condvar::new();
+
+/// At `sp_w_p3` a writer of a spill pool holds the file it is about to append to.  The first writer to
+/// get there waits (bounded) for a second one, so that two writers of the shared pool hold two distinct
+/// files - an interleaving that needs real parallelism inside `push_batch` and is rare otherwise.
+fn force_hook(site: &'static str, _args: &[i64]) -> i64 {
+    if site == "sp_w_p3" {
+        let mut g = FORCE.lock();
+        if g.0 {
+            g.1 += 1;
+            FORCE_CV.notify_all();
+            if g.1 == 1 {
+                let t0 = std::time::Instant::now();
+                while g.1 < 2 && t0.elapsed().as_millis() < 300 {
+                    FORCE_CV.wait_for(&mut g, std::time::Duration::from_millis(50));
+                }
+            }
+        }
+    }
+    0
+}
+
 // ------------------------------------------------------------------------------------------ running RepartitionExec
 
 #[derive(Debug, Default)]
@@ -386,10 +418,18 @@ fn root_is_resources(e: &DataFusionError) -> bool {
 }
 
 pub fn run_case(c: &Case) -> Outcome {
+    run_case_idle(c, 20)
+}
+
+pub fn run_case_idle(c: &Case, idle_ticks: u32) -> Outcome {
     let mut o = Outcome::default();
     let t_begin = std::time::Instant::now();
     let log = Arc::new(parking_lot::Mutex::new(Vec::<Value>::new()));
-    let rt = tokio::runtime::Builder::new_multi_thread().worker_threads(c.threads.max(1)).enable_all().build().unwrap();
+    let rt = if c.threads <= 1 {
+        tokio::runtime::Builder::new_current_thread().enable_all().build().unwrap()
+    } else {
+        tokio::runtime::Builder::new_multi_thread().worker_threads(c.threads).enable_all().build().unwrap()
+    };
     let mut rb = RuntimeEnvBuilder::default();
     if let Some(m) = c.mem {
         rb = rb.with_memory_limit(m, 1.0);
@@ -434,6 +474,10 @@ pub fn run_case(c: &Case) -> Outcome {
     o.status = vec!["never".into(); nout];
     o.batches = vec![0; nout];
     let results: Arc<parking_lot::Mutex<Vec<(usize, Vec<Row>, String, usize)>>> = Arc::new(parking_lot::Mutex::new(vec![]));
+    if c.force_two_files {
+        *FORCE.lock() = (true, 0);
+        datafusion_common::verif::set_hook(Some(Arc::new(force_hook)));
+    }
     let fuzz = c.yield_seed;
     let t_setup = t_begin.elapsed();
     let hang = rt.block_on(async {
@@ -455,6 +499,7 @@ pub fn run_case(c: &Case) -> Outcome {
             let results = Arc::clone(&results);
             let log = Arc::clone(&log);
             let progress = Arc::clone(&progress);
+            let sleeps = c.threads > 1;
             let mut rng = fuzz.wrapping_mul(31).wrapping_add(p as u64 + 7) | 1;
             handles.push(tokio::spawn(async move {
                 let mut rows = vec![];
@@ -470,7 +515,7 @@ pub fn run_case(c: &Case) -> Outcome {
                         if fuzz != 0 {
                             match xorshift(&mut rng) % 6 {
                                 0 => tokio::task::yield_now().await,
-                                1 => tokio::time::sleep(std::time::Duration::from_micros(xorshift(&mut rng) % 400)).await,
+                                1 if sleeps => tokio::time::sleep(std::time::Duration::from_micros(xorshift(&mut rng) % 400)).await,
                                 _ => {}
                             }
                         }
@@ -503,18 +548,23 @@ pub fn run_case(c: &Case) -> Outcome {
         tokio::pin!(all);
         let mut last = progress.load(AO::Relaxed);
         let mut idle = 0;
+        let idle_limit: u32 = std::env::var("C10_IDLE").ok().and_then(|s| s.parse().ok()).unwrap_or(idle_ticks);
         loop {
             tokio::select! {
                 _ = &mut all => return false,
                 _ = tokio::time::sleep(std::time::Duration::from_secs(2)) => {
                     let now = progress.load(AO::Relaxed);
                     if now == last { idle += 1; } else { idle = 0; last = now; }
-                    if idle >= 20 { return true; }
+                    if idle >= idle_limit { return true; }
                 }
             }
         }
     });
     o.hang = hang;
+    if c.force_two_files {
+        *FORCE.lock() = (false, 0);
+        datafusion_common::verif::set_hook(None);
+    }
     let t_run = std::time::Instant::now();
     for (p, rows, status, nb) in results.lock().drain(..) {
         o.out[p] = rows;
@@ -582,7 +632,7 @@ fn judge(c: &Case, o: &Outcome) -> Option<String> {
         return None;
     }
     if o.hang {
-        return Some(format!("no batch moved for 40 s while outputs {:?} were still being read (statuses {:?})", (0..c.nout).filter(|&p| o.status[p] == "dropped" && c.drops[p] == -2).collect::<Vec<_>>(), o.status));
+        return Some(format!("hang: no batch moved for 10-40 s while outputs {:?} were still being read, and the same configuration hung again when re-run", (0..c.nout).filter(|&p| o.status[p] == "never" && c.drops[p] != -1).collect::<Vec<_>>()));
     }
     let (exp, origin, _) = expected(c);
     let has_err = c.inputs.iter().any(|p| p.iter().any(|it| matches!(it, Item::Err)));
@@ -720,7 +770,81 @@ fn gen_case(rng: &mut StdRng, n: usize, seed: u64) -> Case {
         drops,
         threads: rng.random_range(1..=4),
         yield_seed: if rng.random_bool(0.8) { rng.random::<u64>() | 1 } else { 0 },
+        force_two_files: false,
         origin: format!("random seed={seed} n={n}"),
+    }
+}
+
+
+/// Run a case; a suspected hang (no batch moved for 40 s) becomes a verdict only when the same
+/// configuration hangs again (up to 4 more runs, 20 s without progress each).
+fn run_and_confirm(c: &Case) -> (Outcome, Option<String>) {
+    let mut o = run_case_idle(c, if c.force_two_files { 5 } else { 20 });
+    let mut v = judge(c, &o);
+    if o.hang {
+        let mut again = 0;
+        for k in 0..4u64 {
+            let mut c2 = c.clone();
+            c2.yield_seed = c.yield_seed.wrapping_add(k * 7919) | 1;
+            if run_case_idle(&c2, 5).hang {
+                again += 1;
+                break;
+            }
+        }
+        if again == 0 {
+            v = None;
+            o.skipped = Some("suspected hang not reproduced".into());
+        }
+    }
+    (o, v)
+}
+
+/// Signature of the known defect: the shared (multi-writer) spill pool of the non-order-preserving
+/// mode under a memory limit with at least two input tasks.
+fn known_key(c: &Case, o: &Outcome) -> Option<&'static str> {
+    let po = c.preserve_order && c.inputs.len() > 1;
+    if o.hang && !po && c.inputs.len() >= 2 && c.mem.is_some() { Some("hang: shared multi-writer spill pool x gate (non-preserve-order, >=2 inputs, memory limit)") } else { None }
+}
+
+/// Scenario family aimed at the spill-pool x gate interplay: 2-3 inputs, 1-2 outputs, small batches, a
+/// memory budget of a few batches, two writers forced to hold distinct spill files once.
+fn gen_forced(rng: &mut StdRng, n: usize, seed: u64) -> Case {
+    let nin = rng.random_range(2..=3usize);
+    let nout = rng.random_range(1..=2usize);
+    let mut inputs = vec![];
+    for i in 0..nin {
+        let nb = rng.random_range(3..=6usize);
+        let mut s = 0i64;
+        let mut seq = 0i64;
+        let part = (0..nb)
+            .map(|_| {
+                Item::Batch(
+                    (0..rng.random_range(1..=4usize))
+                        .map(|_| {
+                            s += rng.random_range(0..3i64);
+                            seq += 1;
+                            Row { id: (i as i64 + 1) * 1000 + seq, k1: Some(rng.random_range(0..6)), k2: Some(["a", "b", "c"][rng.random_range(0..3)].to_string()), k3: Some(rng.random_range(0..4)), s }
+                        })
+                        .collect(),
+                )
+            })
+            .collect();
+        inputs.push(part);
+    }
+    let scheme = if rng.random_bool(0.5) { "rr" } else { "hash" }.to_string();
+    Case {
+        keys: if scheme == "hash" { vec!["k1".into()] } else { vec![] },
+        scheme, nout, splits: vec![], desc: vec![], nulls_first: vec![], preserve_order: false,
+        unbounded: rng.random_bool(0.3),
+        inputs,
+        batch_size: [1, 1, 2][rng.random_range(0..3)],
+        mem: Some([700, 1000, 1500, 2200][rng.random_range(0..4)]),
+        max_spill_file: None,
+        drops: vec![-2; nout],
+        threads: rng.random_range(2..=4),
+        yield_seed: rng.random::<u64>() | 1,
+        force_two_files: true,
+        origin: format!("forced seed={seed} n={n}"),
     }
 }
 
@@ -738,7 +862,7 @@ fn run_part_case(v: &Value) -> (Option<String>, Value) {
         scheme: scheme.to_string(), nout: n, keys: vec!["k1".into()],
         splits: v["splits"].as_array().map(|a| a.iter().map(|x| vec![x.as_i64()]).collect()).unwrap_or_default(),
         desc: vec![v["desc"].as_bool().unwrap_or(false)], nulls_first: vec![v["nf"].as_bool().unwrap_or(false)],
-        preserve_order: false, unbounded: false, inputs: vec![], batch_size: 8192, mem: None, max_spill_file: None, drops: vec![], threads: 1, yield_seed: 0, origin: "tlc".into(),
+        preserve_order: false, unbounded: false, inputs: vec![], batch_size: 8192, mem: None, max_spill_file: None, drops: vec![], threads: 1, yield_seed: 0, force_two_files: false, origin: "tlc".into(),
     };
     let part = match partitioning(&c) {
         Ok(p) => p,
@@ -873,7 +997,16 @@ pub fn main() {
                 violations.push(json!({"kind": "partitioner", "case": v["case"], "observed": obs, "oracle": m}));
             }
         } else {
-            cases.push(case_parse(&v["case"]));
+            let base = case_parse(&v["case"]);
+            // --vary N: N schedule variants of the same case (development aid)
+            let vary: u64 = util::arg("--vary").and_then(|s| s.parse().ok()).unwrap_or(0);
+            for k in 0..vary {
+                let mut c = base.clone();
+                c.yield_seed = base.yield_seed.wrapping_add(k * 7919) | 1;
+                c.threads = util::arg("--threads").and_then(|s| s.parse().ok()).unwrap_or(1 + (k as usize % 4));
+                cases.push(c);
+            }
+            cases.push(base);
         }
     }
     let nrandom: usize = util::arg("--random").and_then(|s| s.parse().ok()).unwrap_or(0);
@@ -881,9 +1014,15 @@ pub fn main() {
     for n in 0..nrandom {
         cases.push(gen_case(&mut rng, n, seed));
     }
+    let nforced: usize = util::arg("--forced").and_then(|s| s.parse().ok()).unwrap_or(0);
+    let first_forced = cases.len();
+    for n in 0..nforced {
+        cases.push(gen_forced(&mut rng, n, seed));
+    }
     let mut traces: Vec<Value> = vec![];
     let (mut total, mut skipped, mut spilled_runs, mut rows_delivered, mut resource_runs, mut err_runs, mut drop_runs, mut po_runs) = (0usize, 0usize, 0usize, 0usize, 0usize, 0usize, 0usize, 0usize);
     let mut cfgs = HashSet::new();
+    let mut skip_notes: Vec<Value> = vec![];
     let mut schemes = BTreeMap::<String, usize>::new();
     // cases are independent: run them on a few OS threads (each case has its own runtime and pool)
     let next = std::sync::atomic::AtomicUsize::new(0);
@@ -897,29 +1036,42 @@ pub fn main() {
                     break;
                 }
                 let c = &cases[k];
-                let mut o = run_case(c);
-                let mut v = judge(c, &o);
-                if o.hang {
-                    // confirm a suspected hang once more on a single-threaded schedule without fuzzing
-                    let mut c2 = c.clone();
-                    c2.threads = 1;
-                    c2.yield_seed = 0;
-                    let o2 = run_case(&c2);
-                    if !o2.hang {
-                        v = None;
-                        o.skipped = Some("suspected hang not reproduced".into());
-                    }
+                if c.force_two_files {
+                    continue; // process-wide hook: run sequentially below
                 }
+                let (o, v) = run_and_confirm(c);
                 done.lock()[k] = Some((o, v));
             });
         }
     });
     let mut done = done.into_inner();
+    let mut forced_hangs = 0usize;
+    for k in 0..cases.len() {
+        if cases[k].force_two_files {
+            if forced_hangs > 0 && util::has_flag("--forced-stop") {
+                // the finding is established; the remaining forced scenarios are skipped (counted)
+                let mut o = Outcome::default();
+                o.skipped = Some("forced scenario not run: a confirmed hang was already found".into());
+                o.status = vec![];
+                done[k] = Some((o, None));
+                continue;
+            }
+            let r = run_and_confirm(&cases[k]);
+            if r.0.hang && r.1.is_some() {
+                forced_hangs += 1;
+            }
+            done[k] = Some(r);
+        }
+    }
+    let _ = first_forced;
     for (k, c) in cases.iter().enumerate() {
         let (o, v) = done[k].take().unwrap();
         total += 1;
-        if o.skipped.is_some() {
+        if let Some(sk) = &o.skipped {
             skipped += 1;
+            if skip_notes.len() < 5 {
+                skip_notes.push(json!({"why": sk, "case": case_json(c)}));
+            }
         }
         if o.spilled > 0 {
             spilled_runs += 1;
@@ -943,7 +1095,7 @@ pub fn main() {
                          "spill_count": o.spilled, "reserved_after": o.reserved_after, "skipped": o.skipped});
         if let Some(m) = v {
             if violations.len() < 20 {
-                violations.push(json!({"kind": "exec", "case": case_json(c), "observed": obs, "oracle": m}));
+                violations.push(json!({"kind": "exec", "case": case_json(c), "observed": obs, "oracle": m, "key": known_key(c, &o)}));
             }
         } else {
             if samples.len() < 4 && o.spilled > 0 && rows_delivered > 0 {
@@ -964,7 +1116,7 @@ pub fn main() {
         "exec_runs": total, "exec_skipped": skipped, "exec_spilled_runs": spilled_runs, "exec_resource_exhausted_runs": resource_runs,
         "exec_input_error_runs": err_runs, "exec_early_drop_runs": drop_runs, "exec_preserve_order_runs": po_runs,
         "rows_delivered": rows_delivered, "distinct_configurations": cfgs.len(), "schemes": schemes,
-        "violations": violations, "samples": samples,
+        "forced_runs": nforced, "forced_confirmed_hangs": forced_hangs, "violations": violations, "samples": samples, "skip_notes": skip_notes,
     });
     std::fs::write(&out_path, serde_json::to_string(&res).unwrap()).unwrap();
     if let Some(p) = util::arg("--traces") {
